@@ -1,7 +1,7 @@
-//@ assume: the NRD recent-kernel index (an LMDB-backed list per excess) is abstract: peek_pos returns the most recent entry for the excess on the fork being extended, push_pos records the new one; is_nrd_enabled is an uninterpreted flag; KernelFeatures is the real enum (extracted, attributes stripped) with FeeFields/NRDRelativeHeight as newtypes
+//@ assume: the NRD recent-kernel index (an LMDB-backed list per excess) is abstract: peek_pos returns the most recent entry for the excess on the fork being extended, push_pos appends the new one, pop_pos drops the most recent one (the whole per-excess list is the view, so a rewind can find the earlier instance); is_nrd_enabled is an uninterpreted flag; KernelFeatures is the real enum (extracted, attributes stripped) with FeeFields/NRDRelativeHeight as newtypes
 //@ assume: T6 rewrites: `relative_height.into()` => nrd_to_u64(relative_height) (the From impl: the wrapped u16 widened), path prefixes dropped, log macros removed (T3)
-//@ assume: decided here: when the feature is on, an NRD kernel is refused iff the same excess has an index entry fewer than relative_height blocks below the block being applied, and an accepted NRD kernel is recorded; other kernel variants are untouched. Per-fork maintenance of the index during rewind/reorg is a history property and is not decided.
-//@ assumed_items: 7
+//@ assume: decided here: when the feature is on, an NRD kernel is refused iff the same excess has an index entry fewer than relative_height blocks below the block being applied, and an accepted NRD kernel is appended to its excess's list with every earlier entry kept; a refused kernel, other kernel variants and other excesses leave the index untouched. Per-fork maintenance of the index during rewind/reorg is a history property and is not decided.
+//@ assumed_items: 8
 //@ fns: txhashset::apply_kernel_rules
 #[derive(Clone, Copy)]
 pub struct FeeFields(pub u64);
@@ -24,7 +24,12 @@ pub enum Error { NRDRelativeHeight, Store }
 
 pub uninterp spec fn sp_nrd_enabled() -> bool;
 impl Batch {
-    pub uninterp spec fn recent(&self, c: Commitment) -> Option<CommitPos>;  // most recent index entry for this excess
+    /// the index: per excess, the list of positions where it occurred on the fork being extended, oldest first
+    pub uninterp spec fn entries(&self, c: Commitment) -> Seq<CommitPos>;
+    /// most recent index entry for this excess
+    pub open spec fn recent(&self, c: Commitment) -> Option<CommitPos> {
+        if self.entries(c).len() > 0 { Some(self.entries(c).last()) } else { None }
+    }
 }
 impl TxKernel {
     pub fn excess(&self) -> (r: Commitment) ensures r == self.excess_c { self.excess_c }
@@ -37,12 +42,20 @@ fn nrd_to_u64(h: NRDRelativeHeight) -> (r: u64) ensures r == h.0 as u64 { h.0 as
 impl KernelIndex {
     #[verifier::external_body]
     pub fn peek_pos(&self, batch: &mut Batch, c: Commitment) -> (r: Result<Option<CommitPos>, Error>)
-        ensures r matches Ok(p) ==> p == old(batch).recent(c), final(batch).recent(c) == old(batch).recent(c),
-                forall|d: Commitment| final(batch).recent(d) == old(batch).recent(d)
+        ensures r matches Ok(p) ==> p == old(batch).recent(c),
+                forall|d: Commitment| final(batch).entries(d) == old(batch).entries(d)
     { unimplemented!() }
     #[verifier::external_body]
     pub fn push_pos(&self, batch: &mut Batch, c: Commitment, pos: CommitPos) -> (r: Result<(), Error>)
-        ensures r.is_ok() ==> final(batch).recent(c) == Some(pos)
+        ensures r.is_ok() ==> final(batch).entries(c) == old(batch).entries(c).push(pos),
+                r.is_err() ==> final(batch).entries(c) == old(batch).entries(c),
+                forall|d: Commitment| d != c ==> final(batch).entries(d) == old(batch).entries(d)
+    { unimplemented!() }
+    #[verifier::external_body]
+    pub fn pop_pos(&self, batch: &mut Batch, c: Commitment) -> (r: Result<Option<CommitPos>, Error>)
+        ensures r.is_ok() ==> final(batch).entries(c) == (if old(batch).entries(c).len() > 0 { old(batch).entries(c).drop_last() } else { old(batch).entries(c) }),
+                r.is_err() ==> final(batch).entries(c) == old(batch).entries(c),
+                forall|d: Commitment| d != c ==> final(batch).entries(d) == old(batch).entries(d)
     { unimplemented!() }
 }
 
@@ -62,13 +75,15 @@ pub open spec fn too_recent(prev: Option<CommitPos>, pos: CommitPos, rel: u64) -
 //@   rewrite `store::nrd_recent_kernel_index()` => `nrd_recent_kernel_index()`
 //@   rewrite `diff < relative_height.into()` => `diff < nrd_to_u64(relative_height)`
 //@   ensures:
-//@+    !sp_nrd_enabled() ==> r.is_ok() && final(batch).recent(kernel.excess_c) == old(batch).recent(kernel.excess_c),
+//@+    !sp_nrd_enabled() ==> r.is_ok() && final(batch).entries(kernel.excess_c) == old(batch).entries(kernel.excess_c),
 //@+    (sp_nrd_enabled() && nrd_rel(kernel.features).is_some()) ==>
 //@+        (r.is_ok() <==> !too_recent(old(batch).recent(kernel.excess_c), pos, nrd_rel(kernel.features).unwrap())) || r.is_err(),
 //@+    (sp_nrd_enabled() && nrd_rel(kernel.features).is_some() && r.is_ok()) ==>
-//@+        !too_recent(old(batch).recent(kernel.excess_c), pos, nrd_rel(kernel.features).unwrap()) && final(batch).recent(kernel.excess_c) == Some(pos),
+//@+        !too_recent(old(batch).recent(kernel.excess_c), pos, nrd_rel(kernel.features).unwrap()) && final(batch).entries(kernel.excess_c) == old(batch).entries(kernel.excess_c).push(pos),
 //@+    (sp_nrd_enabled() && nrd_rel(kernel.features).is_some()
 //@+        && too_recent(old(batch).recent(kernel.excess_c), pos, nrd_rel(kernel.features).unwrap())) ==> r.is_err(),
-//@+    (sp_nrd_enabled() && nrd_rel(kernel.features).is_none()) ==> r.is_ok() && final(batch).recent(kernel.excess_c) == old(batch).recent(kernel.excess_c),
+//@+    (sp_nrd_enabled() && nrd_rel(kernel.features).is_none()) ==> r.is_ok() && final(batch).entries(kernel.excess_c) == old(batch).entries(kernel.excess_c),
+//@+    forall|d: Commitment| d != kernel.excess_c ==> final(batch).entries(d) == old(batch).entries(d),
+//@+    r.is_err() ==> final(batch).entries(kernel.excess_c) == old(batch).entries(kernel.excess_c),
 //@ end
 //@ canary apply_kernel_rules: r.is_err()
